@@ -144,8 +144,33 @@ def _pels(case):
             pel['secs'][0]['callouts'] = None
             pel['secs'][0]['flags'] &= 0xFE
             seams.write_file(os.path.join(d, '%08X' % (0x50001000 + k)), encode.encode(pel))
+        # a second directory in which some files yield no document (hidden / informational PELs, junk) - among
+        # them, often, the first or the last one in listing order
+        d2 = os.path.join(seams.scratch_dir('c06'), 'dir2')
+        shutil.rmtree(d2, ignore_errors=True)
+        os.makedirs(d2)
+        names = sorted(os.listdir(d))
+        silent = set(rng.sample(names, rng.randrange(1, max(2, len(names) // 2))) + [names[0]] * (rng.random() < .6)
+                     + [names[-1]] * (rng.random() < .4))
+        for nm in names:
+            with open(os.path.join(d, nm), 'rb') as f:
+                raw = bytearray(f.read())
+            if nm in silent:
+                how = rng.choice(['hidden', 'info', 'junk', 'cut'])
+                if how == 'hidden':
+                    raw[48 + 8 + 10] |= 0x40            # action flags: not customer viewable
+                elif how == 'info':
+                    raw[48 + 8 + 2] = 0x00              # severity: informational
+                    raw[48 + 8 + 10] &= 0x7F
+                elif how == 'junk':
+                    raw[0:2] = b'XX'
+                else:
+                    raw = raw[: len(raw) // 2]
+            seams.write_file(os.path.join(d2, nm), bytes(raw))
         for argv, mode in ((['-p', d, '-a'], 'all'), (['-p', d, '-l'], 'list'),
-                           (['-f', os.path.join(d, '50001000')], 'file'), (['-p', d, '-l', '-r', '-E'], 'list')):
+                           (['-f', os.path.join(d, '50001000')], 'file'), (['-p', d, '-l', '-r', '-E'], 'list'),
+                           (['-p', d2, '-a'], 'all'), (['-p', d2, '-a', '-r'], 'all'), (['-p', d2, '-l'], 'list'),
+                           (['-p', d2, '-a', '-H'], 'all')):
             del calls[:]
             res = seams.run_cli(argv)
             ins = [c[0] for c in calls]
@@ -223,6 +248,7 @@ def _pels(case):
     finally:
         pt.prettyPrint = orig
         shutil.rmtree(d, ignore_errors=True)
+        shutil.rmtree(os.path.join(seams.scratch_dir('c06'), 'dir2'), ignore_errors=True)
     return recs
 
 
